@@ -631,7 +631,8 @@ func runEngine(c ecase) (sym, det, inconcl string) {
 	x, _ := procXML(c)
 	var in, in2 *drive.Inst
 	var err error
-	vars := map[string]any{"base": map[string]any{"present": map[string]any{"leaf": "L"}, "n": 3}}
+	vars := map[string]any{"base": map[string]any{"present": map[string]any{"leaf": "L"}, "n": 3},
+		"arr": []any{"a0", "a1", "a2"}, "empty": []any{}, "nest": map[string]any{"l": []any{[]any{"x", "y"}, []any{"z"}}}}
 	if c.Door == "variables" {
 		vars["v"] = v
 	}
@@ -772,9 +773,14 @@ func runEngine(c ecase) (sym, det, inconcl string) {
 		}); p != "" {
 			return "panic", "reading properties panicked: " + p, ""
 		}
-		if c.Ref == "$base.present.leaf" && c.Declared == "" {
-			if it := props["p"]; it == nil || it.Value() != "L" {
-				return "ref", fmt.Sprintf("property with ref %q resolved to %v, want \"L\"", c.Ref, props["p"]), ""
+		if want, ok := map[string]string{"$base.present.leaf": "L", "$arr.0": "a0", "$arr.2": "a2", "$nest.l.0.1": "y"}[c.Ref]; ok && c.Declared == "" {
+			if it := props["p"]; it == nil || it.Value() != want {
+				return "ref", fmt.Sprintf("property with ref %q resolved to %v, want %q", c.Ref, props["p"], want), ""
+			}
+		}
+		if absent := map[string]bool{"$arr.3": true, "$arr.4": true, "$empty.0": true, "$nest.l.2": true, "$nest.l.1.1": true, "$base.absent": true}[c.Ref]; absent && c.Declared == "" {
+			if it := props["p"]; it != nil && it.Value() != nil && it.Value() != "" {
+				return "ref", fmt.Sprintf("property with ref %q (nothing there) resolved to %#v", c.Ref, it.Value()), ""
 			}
 		}
 	}
@@ -819,7 +825,9 @@ func TestC16Engine(t *testing.T) {
 		}
 		return
 	}
-	refs := []string{"$base.present.leaf", "$base.absent", "$base.present.absent.deep", "$missing.x", "$base", "base.present", "$", "", "$.x", "$base.n", "$base..", "$v.a"}
+	refs := []string{"$base.present.leaf", "$base.absent", "$base.present.absent.deep", "$missing.x", "$base", "base.present", "$", "", "$.x", "$base.n", "$base..", "$v.a",
+		// array positions: first, last, one past the end, far out, negative, not a number, on an empty array, nested
+		"$arr.0", "$arr.2", "$arr.3", "$arr.4", "$arr.99999999999999999999", "$arr.-1", "$arr.x", "$arr.#", "$empty.0", "$empty.1", "$nest.l.0.1", "$nest.l.1.1", "$nest.l.2", "$nest.l.2.0", "$arr", "$arr.0.0"}
 	rapid.Check(t, func(rt *rapid.T) {
 		c := ecase{V: genValue(rt, 3, false), Door: rapid.SampledFrom([]string{"variables", "results", "objects", "property", "declared"}).Draw(rt, "door"),
 			Other: genValue(rt, 2, false), SharedOpts: rapid.IntRange(0, 3).Draw(rt, "sharedOpts") == 0}
